@@ -1,4 +1,5 @@
 import PcfgVerif.Model.Loader
+import PcfgVerif.Model.LoadMulti
 import PcfgVerif.Drive.Basic
 /-! Driver commands for the loader model (`_load_from_file`, `_load_base_structures`). -/
 namespace Drive.Loader
@@ -65,6 +66,26 @@ def step (st : St) : List String → St × String
     match parseCps t with
     | some t => (st, " ".intercalate ("lines" :: (codecLines t).map showCps))
     | none => (st, "bad-op")
+  | "ld.multi" :: cat :: k :: rest =>
+    -- `_load_from_multiple_files`: k listed file names, then (file name on disk, decoded text) pairs; names as code points
+    match k.toNat?, rest.mapM parseCps with
+    | some k, some args =>
+      let listed := (args.take k).map fun n => String.ofList (n.map Char.ofNat)
+      let rec pairs : List CPs → List (String × CPs)
+        | n :: t :: more => (String.ofList (n.map Char.ofNat), t) :: pairs more
+        | _ => []
+      let disk := pairs (args.drop k)
+      let read : String → Option (List (LGroup Float)) := fun f =>
+        match disk.find? (·.1 == f) with
+        | some (_, t) => loadFromFile st.parseP (fun a b => a == b) (-1.0) t
+        | none => none
+      match LoadMulti.loadMultiple read cat listed [] with
+      | none => (st, "fail")
+      | some g =>
+        let names := (g.map (·.1)).mergeSort (fun a b => decide (a ≤ b))
+        (st, " ".intercalate ("vars" :: names.map fun nm =>
+          nm ++ "=" ++ (match LoadMulti.lookup g nm with | some gs => showGroups gs | none => "?")))
+    | _, _ => (st, "bad-op")
   | ["txt.tables"] =>
     (st, s!"seps {showCps pyLineSeps} spaces {showCps pySpaces}")
   | _ => (st, "bad-op")
